@@ -268,6 +268,9 @@ pub trait CoreObj {
     fn debug(&self) -> String;
     fn alg(&self) -> String;
     fn into_stream(self: Box<Self>) -> Box<dyn StreamObj>;
+    /// StreamCipherCore::try_apply_keystream_partial (consumes the core); separate buffers if
+    /// `b2b`.  Only used far from the keystream limit.
+    fn partial(self: Box<Self>, b2b: bool, inp: &[u8], out: &mut [u8]) -> Result<(), ()>;
     fn drop_scan(self: Box<Self>) -> Vec<u8>;
     fn peek(&self) -> Vec<u8>;
     fn as_any(&self) -> &dyn core::any::Any;
@@ -361,6 +364,15 @@ impl<T: CoreCaps> CoreObj for CoreO<T> {
     fn into_stream(self: Box<Self>) -> Box<dyn StreamObj> {
         let c = self.0.take();
         Box::new(StrO(Slot::new(StreamCipherCoreWrapper::from_core(c))))
+    }
+    fn partial(self: Box<Self>, b2b: bool, inp: &[u8], out: &mut [u8]) -> Result<(), ()> {
+        let c = self.0.take();
+        if b2b {
+            c.try_apply_keystream_partial(InOutBuf::new(inp, out).map_err(|_| ())?).map_err(|_| ())
+        } else {
+            out.copy_from_slice(inp);
+            c.try_apply_keystream_partial(out.into()).map_err(|_| ())
+        }
     }
     fn drop_scan(self: Box<Self>) -> Vec<u8> {
         self.0.drop_scan()
